@@ -21,9 +21,8 @@ def KV.get (m : KV) (k : Int) : Option Int := List.lookup k m
 def KV.del (m : KV) (k : Int) : KV := m.filter (fun p => p.1 != k)
 /-- `m[k] = v` -/
 def KV.set (m : KV) (k v : Int) : KV :=
-  match m.get k with
-  | some _ => m.map (fun p => if p.1 == k then (k, v) else p)
-  | none => m ++ [(k, v)]
+  if (m.get k).isSome then m.map (fun p => if p.1 == k then (k, v) else p)
+  else m ++ [(k, v)]
 def KV.NodupKeys (m : KV) : Prop := (m.map (·.1)).Nodup
 
 /-- Goroutine-local state of one call: the named temporaries of the Go bodies. -/
@@ -64,7 +63,7 @@ def aLock : A := { ev := .lock }
 def aUnlock : A := { ev := .unlock }
 def rd (f : KV → Loc → Loc) : A := { ev := .read, f := fun s l => (s, f s l) }
 def wr (f : KV → Loc → KV × Loc) : A := { ev := .write, f := f }
-def callFn (f : Loc → Loc) : A := { ev := .callFn, f := fun s l => (s, f l) }
+def callFn (f : Loc → Loc) : A := { ev := .callFn, g := f }
 
 /-- `value, ok := s.entries[key]` -/
 def rdLookup (k : Int) : A :=
